@@ -76,4 +76,12 @@ CLAIMS["C10"] = proof(
     "counter for try_acquire. RwLock: only the two words are proved clean (C10_rw_words_partial: state = 0, inner mutex word = 0, all try_* succeed, via C14_free_lock_succeeds); that no_readers / no_writer / the inner lock_ops hold no entry, "
     "and that a cancelled upgrade releases its upgradable lock at the event level, is decided by the correspondence check and the C05/C06/C07 monitors evaluated after each cancellation. Schedule half not proved. " + CORR, NOTE)
 
+CLAIMS["C09"] = proof(
+    "History half proved as a refinement: C09_refines — for every n < 2^64 and every history of fewer than 2^64-2 operations (waits created, polled with any wakers, spuriously, in any order, dropped anywhere, completed waits kept alive) "
+    "the model of src/barrier.rs returns, poll by poll, what the 25-line abstract barrier returns: a wait arrives at its first poll; the arrival that brings the count to n completes at once as the leader and opens the next generation; earlier "
+    "arrivals are Pending while their generation is current and complete with is_leader()=false as soon as it is not; nothing else completes a wait (so none returns early, exactly one leader per generation, generations never release each other). "
+    "C09_released_complete — at rest (every woken task re-polled) every pending wait belongs to the current generation, which is short of n arrivals: once the n-th arrives all live waits of that generation are woken (latest waker) and complete at their next poll. "
+    "C09_mutex_free / C09_no_error — the inner mutex is free with no queued listener between polls; no unreachable branch, no fuel exhaustion. C09_spec_sane — the abstract barrier never has more current-generation waits outstanding than arrivals. "
+    "Schedule half (threads, wait_blocking) not proved: the inner mutex being contended mid-poll is outside poll-granular histories; pinned by Tie_Barrier. " + CORR, NOTE)
+
 NOT_APPLICABLE = []
